@@ -271,7 +271,7 @@ func mVal(r *prng.R) mval {
 		}
 		return mval{kind: "bool", b: b, s: sp}
 	case 7, 8, 9:
-		s := r.Pick("q", "he said", "a\"b", "back\\slash", "x]y", "[b]", "% apples", "%st", "\\%", "名 前", "é", "", " ", "a:b", "true", "12", "😀", "/]", "100\\% of %", "%%")
+		s := r.Pick("q", "he said", "a\"b", "back\\slash", "x]y", "[b]", "% apples", "%st", "\\%", "名 前", "é", "", " ", "a:b", "true", "12", "😀", "/]", "100\\% of %", "%%", "%:\\", "% \\", "\\", "%\\%\\")
 		return mval{kind: "quoted", s: s}
 	}
 	return mval{kind: "bare", s: mIdent(r)}
@@ -311,7 +311,7 @@ func mRaw(r *prng.R) string {
 }
 
 func placeholderText(r *prng.R) mval {
-	return mval{kind: "quoted", s: r.Pick("% apple", "% apples", "%st", "%nd", "%rd", "%th", "he", "she", "they", "\\% of %", "x", "", "名%", "%%", "a\\\\%b")}
+	return mval{kind: "quoted", s: r.Pick("% apple", "% apples", "%st", "%nd", "%rd", "%th", "he", "she", "they", "\\% of %", "x", "", "名%", "%%", "a\\\\%b", "%:\\", "% \\", "\\", "%\\%\\", "\\1 of %", "%\\")}
 }
 
 func mRepl(r *prng.R, selfClosing bool) *mchunk {
